@@ -254,12 +254,19 @@ def report(module: Any, total: Result, tier: str, seed: int, wall: float, n_item
         _init_worker(module.__name__)
     for v in unknown[:20]:
         ok = True
+        unstable = True
         for _ in range(2):
             again = _run_item((v["item"], tier))
             if not any(digest(a["signature"]) == digest(v["signature"]) for a in again.violations):
                 ok = False
+            # the same work item violates again, under another signature that is no known finding either: the defect is real
+            # but what it damages differs between executions (e.g. two real writer threads racing for one queue)
+            if not any(not any(matches(entry, a["signature"]) for entry in known) for a in again.violations):
+                unstable = False
         if ok:
             confirmed.append(v)
+        elif unstable:
+            confirmed.append(v | {"signature": {**v["signature"], "varies_between_executions": True}})
         else:
             harness_errors.append({"error": "violation did not reproduce on replay", "signature": v["signature"]})
     for n, v in enumerate(confirmed):
